@@ -439,4 +439,11 @@ def r8_evolved_algorithm_comes_back(ctx):
     ctx.check(ok, re_.qual, "algorithm and population both come from the worker's result" if ok else why, where=re_, node=rets[0] if rets else re_.node)
 
 
-RULES = [r7_every_task_runs_its_own_pipeline, r8_evolved_algorithm_comes_back, r6_names_values_same_order, r1_sibling_run_space, r2_no_shared_state_in_task, r3_one_suffix_per_run, r4_task_independence, r5_island_order]
+def r9_files_attributed_one_to_one(ctx):
+    """Files written by a parallel observation correspond one-to-one to the parameter combinations: the run number reaches the file name injectively (shared with C19.R3)."""
+    from props.C19 import r3_attribution
+
+    r3_attribution(ctx)
+
+
+RULES = [r9_files_attributed_one_to_one, r7_every_task_runs_its_own_pipeline, r8_evolved_algorithm_comes_back, r6_names_values_same_order, r1_sibling_run_space, r2_no_shared_state_in_task, r3_one_suffix_per_run, r4_task_independence, r5_island_order]
